@@ -533,6 +533,9 @@ func runCheck(cfg *runConfig) int {
 		}
 	}
 	if len(need) == 0 {
+		if hs := loadBounded(cfg.prop); len(hs) > 0 {
+			return runBounded(cfg, hs)
+		}
 		fmt.Fprintf(os.Stderr, "no contracts for property %s\n", cfg.prop)
 		return 2
 	}
